@@ -100,6 +100,27 @@ def merge(chk, res, kind):
             chk.violation(what, {"op": kind, "input": inp}, exp, act)
 
 
+def threads_part(chk, rng, n):
+    """encoding is a function of the digit string: several threads encoding / decoding / building MSISDN AVPs at once, from
+    a freshly imported module (first use included), must each get what they get alone"""
+    import importlib
+    import threadsafe
+    import bromelia.utils as U
+
+    def make_threads(r):
+        nums = [r.choice([5521993082672, 123, "0123", "1", "01", 10 ** 15, "987654321", r.randrange(10 ** 14)]) for _ in range(r.choice([2, 2, 3]))]
+        threads = []
+        for x in nums:
+            def one(x=x):
+                from bromelia.avps import MsisdnAVP
+                e = U.encode_to_tbcd(x)
+                return (e, U.decode_from_tbcd(e), MsisdnAVP(int(x)).data.hex() if str(x)[0] != "0" else None)
+            threads.append([one] * r.choice([1, 2]))
+        return threads, {"numbers": [str(x) for x in nums]}
+
+    threadsafe.explore(chk, "TBCD", make_threads, lambda: importlib.reload(U), ("bromelia/utils.py",), rng, n)
+
+
 def run(chk):
     rng = random.Random(chk.seed)
     chk.lean = core.lean_build(["BromeliaVerif.Properties.C18"])
@@ -124,6 +145,7 @@ def run(chk):
     chk.samples.append({"MsisdnAVP": 5521993082672})
     chk.extra["exhaustive"] = True
     chk.extra["exhaustive_domain"] = "digit strings of length 0..%d" % maxlen
+    threads_part(chk, rng, 40 if chk.tier == "quick" else 3000)
 
     def search():
         more = sorted({"".join(rng.choice("0123456789") for _ in range(rng.randint(0, 40))) for _ in range(4 * n_rand)})
